@@ -368,6 +368,18 @@ func atoiDef(s string, def int) int {
 }
 
 func main() {
+	// the verification directory is where this binary lives (<dir>/bin/gosym): a snapshot
+	// of /verif elsewhere (vp run) uses its own harnesses; /repo is always the real tree
+	if exe, err := os.Executable(); err == nil {
+		if d := filepath.Dir(filepath.Dir(exe)); d != "" {
+			if _, err := os.Stat(filepath.Join(d, "harness", "zzvf", "vf.go")); err == nil {
+				verifDir = d
+			}
+		}
+	}
+	if r := os.Getenv("VERIF_REPO"); r != "" {
+		repoDir = r
+	}
 	if len(os.Args) < 2 {
 		fmt.Fprintln(os.Stderr, "usage: gosym check|selftest|replay ...")
 		os.Exit(2)
